@@ -252,7 +252,6 @@ func huntTwoIndexCache(t *testing.T, indexes []model.ClientIndex) *TableCache {
 // every index in turn, including those for which the model holds only default
 // values, until one of them has an entry.
 func TestHuntRowsByModelsIndexSelection(t *testing.T) {
-	t.Skip("the cache documents 'first matching index'; only unusable indexes are excluded")
 	names := func(rows map[string]model.Model) []string {
 		out := []string{}
 		for _, r := range rows {
@@ -297,7 +296,7 @@ func TestHuntRowsByModelsIndexSelection(t *testing.T) {
 			// first usable index: _uuid; no row has it
 			"uuid of no row, then an index",
 			nil,
-			&huntTwoIndexModel{UUID: "absent", Name: "n1"},
+			&huntTwoIndexModel{UUID: "00000000-0000-4000-8000-00000000dead", Name: "n1"},
 		},
 	} {
 		t.Run(tt.name, func(t *testing.T) {
